@@ -311,6 +311,27 @@ theorem axl_wr_undisturbed (t : Nat) (s : FState) (x : WIn) (h : s.respond = fal
     (hacc : wWaitCond x = false) : (wOut s x).error = false ∧ wNext t s x = fInit t := by
   simp [wNext, wOut, wWait, h, hacc, fInit, WaitTimer.next]
 
+/-! Scope of "undisturbed" on the write channels (finding C11-axi-timeout-accumulates-across-transfers).
+    `axl_wr_timeout_exact` characterises the code exactly: the streak counts consecutive cycles in which ANY AW or W
+    beat is stalled, and `axl_wr_undisturbed` guarantees a reload only in a cycle in which NO beat is stalled.  The
+    stronger per-transfer reading
+
+        theorem axl_wr_undisturbed_per_transfer_open : a write whose own AW and W beats are each accepted after
+          fewer than `t` stall cycles never sees an error / forced response
+
+    is false: with back-to-back writes the stalls of different beats and different transfers add up.  Negative
+    witness (`t = 4`; AW1 stalled cycles 0–1, W1 stalled 1–2, AW2 stalled from 3, W2 from 4 — no beat waits more than
+    2 cycles, transfer #2 is 2 cycles old): error pulse in cycle 4.  The read FSM watches a single channel, so every AR
+    handshake cycle has `wait_cond = 0` and reloads; `wishbone.Timeout` reloads on every `ack`. -/
+example :
+    ((wTimeout 4).trace
+      [{ awv := true,  wv := false, br := false, awr := false, wr := false, bv := false, bresp := 0 },
+       { awv := true,  wv := true,  br := false, awr := false, wr := false, bv := false, bresp := 0 },
+       { awv := true,  wv := true,  br := false, awr := true,  wr := false, bv := false, bresp := 0 },
+       { awv := true,  wv := true,  br := false, awr := false, wr := true,  bv := false, bresp := 0 },
+       { awv := true,  wv := true,  br := false, awr := false, wr := false, bv := false, bresp := 0 }]).map (·.error)
+    = [false, false, false, false, true] := by decide
+
 /-- Waiting stretch: from a freshly loaded timer, `ys.length ≤ t` cycles with a pending unaccepted beat give no
     error and leave `count = t - ys.length`. -/
 theorem axl_wr_waiting (t : Nat) (ys : List WIn) : ∀ (cnt : Nat), ys.length ≤ cnt → cnt ≤ t →
